@@ -2,7 +2,7 @@
 // of all insertion histories, three oracles (C03 queries, C04 retention, C05 deletion/isolation)
 // plus the dump/restore clause of C16 evaluated in every state.
 //
-//	cache-bfs    [depth=N] [caps=1,2,3,100] [budget_s=N] [workers=N] [restore=0|1]
+//	cache-bfs    [depth=N] [caps=1,2,3,100] [budget_s=N] [workers=N] [restore=0|1] [alphabet=main|focus|both]
 //	cache-replay cap=N hist=label,label,...      (re-runs the oracles along one history, verbose)
 package main
 
@@ -27,13 +27,13 @@ var parts = map[string]func(*vk.Ctx){
 
 func main() { vk.RunPart(parts) }
 
-const ruleText = "breadth-first search over all insertion histories (31-event alphabet, two authors, timestamps {1,2,3}) up to the depth, per capacity, " +
+const ruleText = "breadth-first search over all insertion histories (31-event main alphabet and a 13-event focus alphabet for repeated tags, two d tags and cross-author references by id; two authors, timestamps {1,2,3}) up to the depth, per capacity, " +
 	"each history replayed on a fresh real EventCache, states merged on the white-box dump of the complete internal state (evs, evsCreatedAt, every index bucket, deletion registry); " +
 	"on every transition the C04/C05 step relation (B, e, flag, A) written from the property statements; at unbounded capacity additionally author non-interference by projection; " +
 	"in every state the query battery against the tie-tolerant limit-newest union over the retained set (refmodel.MatchFilter) and the same battery on the Dump->Restore twin"
 
 func newExplorer(c *vk.Ctx, bt *battery) *explorer {
-	return &explorer{c: c, bt: bt, workers: runtime.NumCPU(), col: &collector{m: map[string]*vioRec{}}, outcomes: map[string]int64{}, zones: map[string]int64{}, doRestore: true}
+	return &explorer{alpha: mainAlphabet(), c: c, bt: bt, workers: runtime.NumCPU(), col: &collector{m: map[string]*vioRec{}}, outcomes: map[string]int64{}, zones: map[string]int64{}, doRestore: true}
 }
 
 func cacheBFS(c *vk.Ctx) {
@@ -73,18 +73,42 @@ func cacheBFS(c *vk.Ctx) {
 	perCap := map[string]any{}
 	completed := []string{}
 	closedCaps := []string{}
-	for _, capacity := range caps {
-		t0 := time.Now()
-		pd, closed := x.runCap(capacity)
-		perCap[fmt.Sprint(capacity)] = map[string]any{"states_per_depth": pd, "wall_s": time.Since(t0).Seconds(), "fixpoint": closed}
-		if closed {
-			closedCaps = append(closedCaps, fmt.Sprint(capacity))
+	// two explorations with the same oracles: the main alphabet, then the small focus alphabet
+	// (events with repeated tags, two d tags, cross-author references by id) with its context
+	type pass struct {
+		name  string
+		alpha []int
+	}
+	passes := []pass{{"main", mainAlphabet()}, {"focus", focusAlphabet()}}
+	if only := c.Arg("alphabet", "both"); only != "both" {
+		var keep []pass
+		for _, p := range passes {
+			if p.name == only {
+				keep = append(keep, p)
+			}
 		}
-		if x.aborted.Load() {
-			c.Cap(fmt.Sprintf("wall-clock budget reached while exploring capacity %d at depth %d; completed capacities: %s", capacity, len(pd)-1, strings.Join(completed, ",")))
-			break
+		if len(keep) == 0 {
+			c.Infra("alphabet must be main, focus or both")
 		}
-		completed = append(completed, fmt.Sprint(capacity))
+		passes = keep
+	}
+passLoop:
+	for _, p := range passes {
+		x.alpha = p.alpha
+		for _, capacity := range caps {
+			t0 := time.Now()
+			pd, closed := x.runCap(capacity)
+			name := fmt.Sprintf("%s/%d", p.name, capacity)
+			perCap[name] = map[string]any{"states_per_depth": pd, "wall_s": time.Since(t0).Seconds(), "fixpoint": closed, "alphabet_size": len(p.alpha)}
+			if closed {
+				closedCaps = append(closedCaps, name)
+			}
+			if x.aborted.Load() {
+				c.Cap(fmt.Sprintf("wall-clock budget reached while exploring %s at depth %d; completed: %s", name, len(pd)-1, strings.Join(completed, ",")))
+				break passLoop
+			}
+			completed = append(completed, name)
+		}
 	}
 
 	c.P.States = x.states.Load()
@@ -96,13 +120,15 @@ func cacheBFS(c *vk.Ctx) {
 	for o := range x.outcomes {
 		c.Outcome(o)
 	}
-	c.P.Bound = fmt.Sprintf("all histories of length <= %d over %d events, capacities %s", x.maxDepth, len(sigma), strings.Join(completed, ","))
+	c.P.Bound = fmt.Sprintf("all histories of length <= %d over the main alphabet (%d events) and over the focus alphabet (%d events); completed alphabet/capacity: %s",
+		x.maxDepth, len(mainAlphabet()), len(focusAlphabet()), strings.Join(completed, ","))
 	if len(closedCaps) > 0 {
-		c.P.Bound += "; fixpoint (no new state, every transition of every reachable state executed: histories of ANY length over the alphabet) for capacities " + strings.Join(closedCaps, ",")
+		c.P.Bound += "; fixpoint (no new state, every transition of every reachable state executed: histories of ANY length over the alphabet) for alphabet/capacity " + strings.Join(closedCaps, ",")
 	}
 	c.SetExtra("fixpoint_capacities", closedCaps)
 	c.SetExtra("max_depth", x.maxDepth)
-	c.SetExtra("alphabet_size", len(sigma))
+	c.SetExtra("alphabet_size", len(mainAlphabet()))
+	c.SetExtra("focus_alphabet", focusLabels)
 	c.SetExtra("alphabet", alphabetDoc())
 	c.SetExtra("capacities", caps)
 	c.SetExtra("per_capacity", perCap)
@@ -118,7 +144,7 @@ func cacheBFS(c *vk.Ctx) {
 	c.SetExtra("workers", x.workers)
 	c.SetExtra("dump_restore_in_every_state", x.doRestore)
 
-	c.Assume("histories are bounded by the depth; events come from the fixed 31-event alphabet (ids, signatures are not verified by the cache)")
+	c.Assume("histories are bounded by the depth; events come from the two fixed alphabets (31 and 13 events) (ids, signatures are not verified by the cache)")
 	c.Assume("states are merged on SHA-256 of the complete internal dump; merging is sound because EventCache is deterministic (asserted: every new state is replayed a second time and must reproduce flags and dump)")
 	c.Assume("the address of an addressable event without d tag is three-valued: it may share the address of the d=\"\" event of the same kind and author or be an address of its own (each transition is accepted if one reading allows it); under both readings it belongs to its author and two d-less events of one author and kind are one address")
 	c.Assume("unclaimed, never reported: survivor of equal created_at versions, whether a d-less addressable event and the d=\"\" event of the same kind and author are one address or two, choice among tied events at a limit cut or as eviction victim, flag of an ephemeral event, `a` references to plain replaceable kinds, `a` references to a version newer than the request (NIP-09), eviction ordered before the removals of a deletion request")
